@@ -20,16 +20,16 @@ PROJECTION = {
     "C02": ["result:adv", "snap:cur", "snap:lsf", "build"],
     "C03": ["result:adv", "snap:conf", "snap:st", "build"],
     "C04": ["result:adv", "snap:cur", "snap:conf", "snap:lcf", "build"],
-    "C05": ["result:adv", "result:events", "wire:Input", "wire:InputAck", "wire:SyncRequest", "wire:SyncReply", "snap:eps", "snap:run", "build"],
+    "C05": ["snap:evq", "result:adv", "result:events", "wire:Input", "wire:InputAck", "wire:SyncRequest", "wire:SyncReply", "snap:eps", "snap:run", "build"],
     "C06": ["result:adv", "wire:Input", "snap:behind", "snap:lrf", "snap:nsf", "snap:cur", "build"],
-    "C07": ["result:adv", "result:events", "result:disc", "snap:st", "snap:df", "snap:eps", "build"],
+    "C07": ["snap:evq", "result:adv", "result:events", "result:disc", "snap:st", "snap:df", "snap:eps", "build"],
     "C08": ["result:adv", "result:poll", "result:events", "wire:InputAck", "snap:st", "snap:eps", "snap:run", "build"],
-    "C09": ["result:events", "wire:ChecksumReport", "snap:lch", "snap:eps", "result:adv", "build"],
-    "C10": ["result:adv", "result:events", "snap:st", "snap:df", "build"],
+    "C09": ["snap:evq", "result:events", "wire:ChecksumReport", "snap:lch", "snap:eps", "result:adv", "build"],
+    "C10": ["snap:evq", "result:adv", "result:events", "snap:st", "snap:df", "build"],
     "C11": ["result:setdelay", "result:adv", "wire:Input", "snap:out", "snap:st", "build"],
     "C12": ["result:events", "result:adv", "snap:run", "wire:SyncRequest", "wire:SyncReply", "wire:KeepAlive", "snap:evq", "build"],
     "C13": ["result:adv", "result:addin", "snap:cur", "build"],
-    "C15": ["snap:ahead", "wire:QualityReport", "wire:QualityReply", "result:stats", "result:events", "build"],
+    "C15": ["snap:evq", "snap:ahead", "wire:QualityReport", "wire:QualityReply", "result:stats", "result:events", "build"],
     "C16": ["build", "result:adv", "result:addin", "result:setdelay", "result:disc", "result:stats", "result:poll"],
     "C17": None,   # everything observable
     "C18": ["snap:evq", "snap:out", "snap:lch", "snap:eps", "result:events", "build"],
